@@ -42,7 +42,7 @@ def main():
                 rc, o = sh('./check %s' % p, cwd=VERIF)
                 res[p] = {'exit': rc, 'findings': [l[:300] for l in o.splitlines() if l.startswith('FINDING')][:5]}
         finally:
-            sh('git -C /repo checkout -- .')
+            sh('git -C /repo checkout -- . && git -C /repo clean -fdq -- src')
         fired = [p for p, r in res.items() if r['exit'] != 0]
         d = os.path.join(VERIF, 'refactors', sid)
         os.makedirs(d, exist_ok=True)
